@@ -210,3 +210,17 @@ Example C20_nonvacuous_egoistic_not_funded :
   f_completeb (fst r) = true /\ f_ret (fst r) = Some (OErr (ECall 13%N)) /\
   count_start ex_ka (snd r) = 0 /\ count_start ex_kb (snd r) = 1 /\ count_start ex_kc (snd r) = 1.
 Proof. exact ex_fund_fail. Qed.
+
+(* --- the completeness hypotheses above are attainable for ALL inputs: under the canonical schedule
+   (every goroutine reaches its sub-call, then the sub-calls return one by one) everything finishes
+   and the method returns.  (This is also the schedule the correspondence check drives.) --- *)
+Theorem C20_canonical_schedule_completes : forall m reg v a ids,
+  ledger_ids a = Ok ids -> d_complete (fst (adj_run m reg v ids (canon_sched ids ids))).
+Proof. exact c20_adj_live. Qed.
+Print Assumptions C20_canonical_schedule_completes.
+
+Theorem C20_fund_canonical_schedule_completes : forall reg ego v a ids,
+  ledger_ids a = Ok ids ->
+  f_complete (fst (fund_run reg v (ego_sel ego ids) (ego_rest ego ids) (canon_fsched ids ids))).
+Proof. exact c20_fund_live. Qed.
+Print Assumptions C20_fund_canonical_schedule_completes.
